@@ -343,6 +343,9 @@ OpStep(e) ==
       chkFresh == (hd.tr = 1) => libCreated \subseteq (UNION {AllIds(Elems(obsT[i])) : i \in {j \in 1..hd.nt : lvAfter(j)}}) \cup SeqToSet(e.dr)
       chkLen == \A i \in 1..hd.nt : lvAfter(i) =>
                   /\ obsX[i].len = Cardinality(newAb[i]) /\ obsX[i].cap >= obsX[i].len
+      \* capacity() never promises more than the table can take without growing (C08: "inserting up to capacity() - len()
+      \* absent keys performs no allocation"): it is bounded by the stored elements plus the growth budget
+      chkCapReal == \A i \in 1..hd.nt : lvAfter(i) => obsX[i].cap <= obsT[i].items + obsT[i].gl
       \* allocation_size() is exactly what is held from the allocator, every live table holds one block with an alignment
       \* sufficient for the elements and an aligned group scan and room for all elements + control bytes + mirrored group
       \* (the exact size formula of the current layout policy is a STRICT fact only)
@@ -414,6 +417,7 @@ OpStep(e) ==
                                                         \cup (IF e.op \in {"clone", "clone_from"} THEN {"C11"} ELSE {})>>} ELSE {})
              \cup (IF ~chkFresh THEN {<<"an object created during the call is neither stored nor dropped (leak)", {"C03", "C04"} \cup opp>>} ELSE {})
              \cup (IF ~chkLen THEN {<<"len()/capacity() contract", {"C08"} \cup opp>>} ELSE {})
+             \cup (IF ~chkCapReal THEN {<<"capacity() promises more than the stored elements plus the growth budget", {"C08", "C17"}>>} ELSE {})
              \cup (IF ~chkAlloc THEN {<<"allocator ledger / allocation_size (size or alignment of a live block differs from the table layout)",
                                        {"C02", "C03", "C08", "C13", "C17"} \cup (IF e.op = "drain" THEN {"C10"} ELSE {})>>} ELSE {})
              \cup (IF ~chkChurn THEN {<<"allocation grew beyond 16x the space needed for the live-size bound under insert/remove churn", {"C13"}>>} ELSE {})
